@@ -24,7 +24,7 @@ pub fn instances(tier: Tier) -> Vec<Prog> {
     let mut out = vec![];
     let (fs, fb) = if tier == Tier::Thorough { (4usize, 5usize) } else { (3, 4) };
     let fill = fb;
-    let base = Menu { vts: vec![VT::Int], datas: vec![], codatas: vec![], ints: vec![1, 5], fix: false, exec: true, redex: false, vars_per_type: 3, alias_patterns: false };
+    let base = Menu { vts: vec![VT::Int], datas: vec![], codatas: vec![], ints: vec![1, 5], fix: false, exec: true, redex: false, vars_per_type: 3, alias_patterns: false, default_arms: false };
     let g = Gen::new(base.clone());
 
     // S1: structural recursion over Nat using a parameter after the recursive call:
@@ -230,6 +230,69 @@ pub fn instances(tier: Tier) -> Vec<Prog> {
                         out.push(Prog { origin: "schema-records".into(), root: root.clone(), body, stdin: b"" });
                     }
                 }
+            }
+        }
+    }
+    // S6: structurally equal data/codata types with permuted arms (type equality is by name and
+    // order-insensitive, so a value of one may flow where the other is expected)
+    {
+        for (vd, md) in [(BOOL, BOOL_REV), (BOOL_REV, BOOL), (BOOL, BOOL)] {
+            for ctor_name in ["+T", "+F"] {
+                let k_in = |d: usize, name: &str| data_decls()[d].ctors.iter().position(|(n, _)| *n == name).unwrap();
+                let v = V::Ctor(vd, k_in(vd, ctor_name), Box::new(V::Unit));
+                // match at `md`, arms written in md's declaration order and in the opposite order
+                for flip in [false, true] {
+                    let mut arms: Vec<(Pat, C)> = data_decls()[md]
+                        .ctors
+                        .iter()
+                        .enumerate()
+                        .map(|(k, (n, _))| (Pat::Ctor(md, k, Box::new(Pat::Unit)), C::Ret(V::Int(if *n == "+T" { 1 } else { 2 }))))
+                        .collect();
+                    if flip {
+                        arms.reverse();
+                    }
+                    let f = V::Thunk(Box::new(C::Fn(Pat::Var(1, VT::Data(md)), Box::new(C::Match(V::Var(1), md, arms)))), func(VT::Data(md), ret(VT::Int)));
+                    let body = C::Let(
+                        Pat::Var(0, VT::Data(vd)),
+                        v.clone(),
+                        VT::Data(vd),
+                        Box::new(C::Let(Pat::Var(1, thk(func(VT::Data(md), ret(VT::Int)))), f, thk(func(VT::Data(md), ret(VT::Int))), Box::new(C::App(Box::new(C::Force(V::Var(1))), V::Var(0))))),
+                    );
+                    out.push(Prog { origin: "schema-permuted-data".into(), root: ret(VT::Int), body, stdin: b"" });
+                }
+            }
+        }
+        for (od, ud) in [(OBJ, OBJ_REV), (OBJ_REV, OBJ), (OBJ, OBJ)] {
+            for dtor in [".get", ".flag", ".app"] {
+                let arms: Vec<C> = codata_decls()[od]
+                    .dtors
+                    .iter()
+                    .map(|(n, _)| match *n {
+                        | ".get" => C::Ret(V::Int(11)),
+                        | ".app" => C::Fn(Pat::Var(2, VT::Int), Box::new(C::Ret(V::Int(22)))),
+                        | _ => C::Ret(V::Ctor(BOOL, 1, Box::new(V::Unit))),
+                    })
+                    .collect();
+                let o = V::Thunk(Box::new(C::Comatch(od, arms)), CT::Codata(od));
+                let k = codata_decls()[ud].dtors.iter().position(|(n, _)| *n == dtor).unwrap();
+                let observe = match dtor {
+                    | ".app" => C::App(Box::new(C::Dtor(Box::new(C::Force(V::Var(1))), ud, k)), V::Int(5)),
+                    | ".flag" => C::Do(
+                        Pat::Var(2, VT::Data(BOOL)),
+                        Box::new(C::Dtor(Box::new(C::Force(V::Var(1))), ud, k)),
+                        Box::new(C::Match(V::Var(2), BOOL, vec![(Pat::Ctor(BOOL, 0, Box::new(Pat::Unit)), C::Ret(V::Int(31))), (Pat::Ctor(BOOL, 1, Box::new(Pat::Unit)), C::Ret(V::Int(32)))])),
+                    ),
+                    | _ => C::Dtor(Box::new(C::Force(V::Var(1))), ud, k),
+                };
+                let g = V::Thunk(Box::new(C::Fn(Pat::Var(1, thk(CT::Codata(ud))), Box::new(observe))), func(thk(CT::Codata(ud)), ret(VT::Int)));
+                let gty = thk(func(thk(CT::Codata(ud)), ret(VT::Int)));
+                let body = C::Let(
+                    Pat::Var(0, thk(CT::Codata(od))),
+                    o,
+                    thk(CT::Codata(od)),
+                    Box::new(C::Let(Pat::Var(1, gty.clone()), g, gty, Box::new(C::App(Box::new(C::Force(V::Var(1))), V::Var(0))))),
+                );
+                out.push(Prog { origin: "schema-permuted-codata".into(), root: ret(VT::Int), body, stdin: b"" });
             }
         }
     }
